@@ -138,7 +138,7 @@ def run(ctx, nscen=None, nbus=None):
                 res.violations.append(dict(signature=sig_of(d) + '/anomaly', what=d['anomalies'][0], case=describe(d, tabs)))
                 continue
             if d['final'] == 0:
-                res.violations.append(dict(signature=sig_of(d) + '/unsettled', what='message was not settled within 10 s', case=describe(d, tabs)))
+                res.violations.append(dict(signature=sig_of(d) + '/unsettled', what='message was not settled within 30 s', case=describe(d, tabs)))
                 continue
             if any(pevent_term(e) is None for e in d['trace']):
                 res.violations.append(dict(signature=sig_of(d) + '/observation', what='unexpected observation', case=describe(d, tabs)))
